@@ -1489,3 +1489,59 @@ def r30(ctx, P, sess):
                                'at most %d (parameters up to %d, 64-bit samples)' % (r[0], M) if r[0] < (1 << 32) else
                                'the product can reach %d >= 2^32 for a definition the validator accepts (parameters up to %d after alignment): the size wraps, the buffer is far smaller than the block, and the first samples written overflow it' % (r[0], M))
     ctx.floor('32-bit products over definition parameters', n, 2)
+
+
+# --------------------------------------------------------------------------- C10.32
+
+def r32(ctx, P):
+    """bits_copy stays inside the destination bytes that hold requested bits"""
+    from ..fd import trace_calls, FD, Top
+    fn = P.functions.get('bits_copy')
+    if fn is None:
+        raise AnalysisBroken('bits_copy not found')
+    ctx.saw(fn, 1)
+    fd = FD(P)
+    dst, dbit, src, sbit, nb = [p_['name'] for p_ in fn.params[:5]]
+    DST, SRC = 0x100000, 0x200000
+    bad = []
+    n = 0
+    for db in range(0, 16):
+        for sb in range(0, 16):
+            for bits in (1, 2, 3, 4, 7, 8, 9, 12, 15, 16, 17, 31, 32, 33, 40):
+                writes = []
+
+                def on_store(ev, env, sym, writes=writes):
+                    lhs, rhs, o = ev.store_parts()
+                    l0 = strip_casts(lhs)
+                    try:
+                        if l0.get('op') == 'un' and l0.get('o') == '*':
+                            a = fd.ev(fn, l0['k'][0], env)
+                            writes.append((a, a + 1))
+                        elif l0.get('op') == 'sub':
+                            a = fd.ev(fn, l0['k'][0], env) + fd.ev(fn, l0['k'][1], env)
+                            writes.append((a, a + 1))
+                    except (Top, ZeroDivisionError, KeyError):
+                        writes.append((None, None))
+                try:
+                    calls = trace_calls(P, fn, {dst: DST, dbit: db, src: SRC, sbit: sb, nb: bits}, on_store=on_store, max_steps=5000)
+                except Top:
+                    raise AnalysisBroken('bits_copy not decidable for dst_bit %d src_bit %d nbits %d' % (db, sb, bits))
+                for cal, a, ev in calls:
+                    if cal in ('memcpy', '__builtin_memcpy', '__builtin___memcpy_chk') and len(a) >= 3:
+                        if isinstance(a[0], int) and isinstance(a[2], int):
+                            writes.append((a[0], a[0] + a[2]))
+                        else:
+                            writes.append((None, None))
+                n += 1
+                lo, hi = DST + db // 8, DST + (db + bits + 7) // 8
+                for a, b in writes:
+                    if a is None:
+                        bad.append('dst_bit %d, src_bit %d, %d bits: a store at an address that is not decidable' % (db, sb, bits))
+                        break
+                    if DST <= a < DST + 0x10000 and (a < lo or b > hi):
+                        bad.append('dst_bit %d, src_bit %d, %d bits: bytes [%d, %d) of the destination are written, the request covers [%d, %d)' % (db, sb, bits, a - DST, b - DST, lo - DST, hi - DST))
+                        break
+    ctx.ob('C10.32', not bad, fn.name, 'destination bytes written by the bit copy', fn.where(),
+           '%d (dst_bit, src_bit, nbits) combinations traced: every write lies inside the requested bytes' % n if not bad else
+           '; '.join(bad[:2]) + ' (%d of %d combinations): jls_rd_fsr writes past a caller buffer that is sized exactly as documented' % (len(bad), n))
+    ctx.floor('bit copy traces', n, 1000)
